@@ -5,7 +5,7 @@ import itertools
 import random
 
 from ..core import Ctx, Prop
-from ..udpdrive import CODES, FAM, FAMLEN
+from ..udpdrive import CODES, FAM, FAMLEN, make_datagram
 
 PORTS = [20002, 10002, 20003, 10003]
 TYPES = list(CODES)
@@ -202,6 +202,16 @@ class C06(BridgeProp):
                 dg.append({"do": "dgram", "p": PORTS[0], "d": {"t": "mutate", "of": base, "extend": cut, "seed": 3}})
             dg.append({"do": "dgram", "p": PORTS[0], "d": {"t": "mutate", "of": base, "set": [[0, 0xFF]]}})
             dg.append({"do": "dgram", "p": PORTS[0], "d": {"t": "mutate", "of": base, "set": [[1, 0xF1]]}})
+            for extra in ([0x0A], [0x0D], [0x00], [0x0D, 0x0A], [0x0A, 0x0A]):      # a capture with a line ending or NUL appended
+                dg.append({"do": "dgram", "p": PORTS[0], "d": {"t": "raw", "b": list(make_datagram(base)) + extra}})
+            unk = dict(rdev(rng, typ), code=[0xAB, 0xCD])
+            for _ in range(3):                                                        # the same unknown-model frame again and again
+                dg.append({"do": "dgram", "p": PORTS[0], "d": unk})
+            dg.append({"do": "dgram", "p": PORTS[1], "d": unk})
+        for n in (159, 160, 165, 166, 168, 169):
+            for last in (0x0A, 0x0D, 0x00):
+                b = [0xFE, 0xF0] + list(rng.randbytes(n - 3)) + [last]
+                dg.append({"do": "dgram", "p": PORTS[0], "d": {"t": "raw", "b": b}})
         codes = set()
         if ctx.quick:
             for kc in known_codes():
